@@ -2,6 +2,7 @@
 //   walk   <graph> <tables: small|mid> [skip]   spec -> code replay of the QValue state graph
 //   record <seed> <hist> <steps> <out.ndjson>   code -> spec random histories for TraceQValue
 //   group  <seed> <nrandom> <out.ndjson>        GroupBy events for OracleGroup (C18)
+#include <deque>
 #include "graph.hpp"
 #include "Value.hpp"
 #include "JSON.hpp"
@@ -454,6 +455,7 @@ static void record(uint64_t seed, long nhist, long nsteps, FILE *out) {
 // ---------------- GroupBy events (C18) -----------------------------------------------
 // group value kinds: 0 string, 1 u64, 2 true/false, 3 null, 4 i64
 static void group_case(FILE *out, vf::Rng &rng, int nobj, int ngroups, bool exhaustive_code, long code) {
+    std::deque<V> side;   // targets of pointer-to-value records (outlive the array)
     V arr;
     arr = V::ArrayT();
     const long G = 1;   // grouping key id ("a")
@@ -495,7 +497,10 @@ static void group_case(FILE *out, vf::Rng &rng, int nobj, int ngroups, bool exha
             }
         }
         if (removed) o.Remove("k5");   // leaves a removed slot before / between the members (possibly before the grouping key)
-        arr += Memory::Move(o);
+        if (!exhaustive_code && rng.below(4) == 0) {      // the record is a pointer-to-value entry: it reads as the object it points to
+            side.emplace_back(Memory::Move(o));
+            arr.AddPointerToValue(&side.back());
+        } else arr += Memory::Move(o);
     }
     std::string before, jin, jout = "{\"t\":\"none\"}", after;
     proj(arr, before);
